@@ -13,7 +13,7 @@ def build_replay_bin():
 
 def run_session(lines, timeout=60):
     r = subprocess.run([REPLAY_BIN], input='\n'.join(lines) + '\n', capture_output=True, text=True, timeout=timeout)
-    return [l for l in r.stdout.split('\n') if l]
+    return [l for l in r.stdout.split('\n') if l and l != 'done']
 
 def make_replay(pid, f, outdir):
     import witness
